@@ -836,6 +836,15 @@ func ruleC13_1(c *Ctx, r *Rep) {
 	cn := b.Find("", "completed_at", "notnull")
 	r.Check("C13.1", "C13.1:reopen-only-completed@"+fnSeekTime, b.Pos, len(cn) == 1 && b.Unconditional(cn[0]), "re-open touches only completed deliveries",
 		"the re-opening update also rewrites deliveries that are merely outstanding (their leases and retention are reset)")
+	// the acknowledging half only acknowledges: any other column it rewrites (an expiry pulled in "so that the pruner
+	// can reclaim the purged backlog") decides what a LATER seek can restore — the re-opening half skips expired rows
+	ackOnly := true
+	for _, m := range a.Muts {
+		if m.Col != "completed_at" {
+			ackOnly = false
+		}
+	}
+	r.Check("C13.1", "C13.1:ack-mutators@"+fnSeekTime, a.Pos, ackOnly, "ack = {completed_at:=now}", "the acknowledging half of the seek also rewrites "+mutCols(a)+": deliveries it expires (or re-keys) can never be restored by a later seek to an earlier time")
 	okM, why := reopenMuts(b)
 	r.Check("C13.1", "C13.1:reopen-mutators@"+fnSeekTime, b.Pos, okM, "re-open = {completed_at:clear, expires_at:=now+MessageTTL, attempt_at:=now}", "the re-opening update "+why)
 	r.Check("C13.1", "C13.1:scope@"+fnSeekTime, a.Pos, seekScope(c, a) && seekScope(c, b), "both halves scoped to the resolved subscription", "a seek half is not scoped to the resolved subscription")
@@ -1063,7 +1072,53 @@ func addOfParamAndField(v ssa.Value, param, field string) bool {
 		return false
 	}
 	cal := call.Call.StaticCallee()
-	if cal == nil || cal.Name() != "Add" || fnPkgPath(cal) != "time" {
+	if cal == nil {
+		return false
+	}
+	if (cal.Name() != "Add" || fnPkgPath(cal) != "time") && lastCtx != nil && lastCtx.inModule(cal) && !lastCtx.EntShape().isGenerated(cal) && len(cal.Blocks) > 0 && len(cal.Blocks) <= 6 {
+		// a small hand-written helper that does the addition (`s.MessageExpirationFrom(now)`): each of its results is
+		// its time parameter + the field, and that parameter is handed `param` here
+		rets := returnsOf(cal)
+		if len(rets) == 0 {
+			return false
+		}
+		for _, ret := range rets {
+			if len(ret.Results) != 1 {
+				return false
+			}
+			inner, ok := resolve(retResult(ret, 0)).(*ssa.Call)
+			if !ok || inner.Call.StaticCallee() == nil || inner.Call.StaticCallee().Name() != "Add" || fnPkgPath(inner.Call.StaticCallee()) != "time" {
+				return false
+			}
+			hp, isHP := resolve(inner.Call.Args[0]).(*ssa.Parameter)
+			if !isHP || hp.Parent() != cal {
+				return false
+			}
+			idx := -1
+			for i, q := range cal.Params {
+				if q == hp {
+					idx = i
+				}
+			}
+			if idx < 0 || idx >= len(call.Call.Args) {
+				return false
+			}
+			op, isOP := resolve(call.Call.Args[idx]).(*ssa.Parameter)
+			if !isOP || op.Name() != param {
+				return false
+			}
+			u, isU := strip(inner.Call.Args[1]).(*ssa.UnOp)
+			if !isU || u.Op != token.MUL {
+				return false
+			}
+			fa, isFA := u.X.(*ssa.FieldAddr)
+			if !isFA || fieldName(fa.X.Type(), fa.Field) != field {
+				return false
+			}
+		}
+		return true
+	}
+	if cal.Name() != "Add" || fnPkgPath(cal) != "time" {
 		return false
 	}
 	p, isP := resolve(call.Call.Args[0]).(*ssa.Parameter)
